@@ -64,10 +64,34 @@ class ModSets:
                         tgt, how = f.stmts[n['obj']], 'call:' + name
             if tgt is None:
                 continue
+            if how == 'map[]' and self._index_guarded(f, n):
+                continue
             r = self.field_root(f, tgt)
             if r is not None:
                 out.append((r[1], how, n, r[2]))
         return out
+
+    def _index_guarded(self, f, n):
+        """map[key] that cannot insert: dominated by contains(key) on the same map, directly or through a const member whose
+        body is `return map.contains(param)`"""
+        from .cfgq import dominating_guards, normalise_cond
+        pos = f.position_of(n)
+        if pos is None:
+            return False
+        cont = f.root_of(f.stmts[n['args'][0]])
+        for c, pol in dominating_guards(f, pos):
+            c, pol = normalise_cond(f, c, pol)
+            if not pol or c is None or c['k'] != 'CXXMemberCallExpr':
+                continue
+            name = (c.get('cs') or '').split('::')[-1]
+            if name in ('contains', 'count') and 'obj' in c and f.root_of(f.stmts[c['obj']]) == cont:
+                return True
+            t = self.db.by_mn.get(c.get('mn') or '')
+            if t is not None and t.rec.get('const') and t.cls == f.cls:
+                inner = [m for m in t.calls() if (m.get('cs') or '').split('::')[-1] in ('contains', 'count') and 'obj' in m]
+                if len(inner) == 1 and t.root_of(t.stmts[inner[0]['obj']]) == cont:
+                    return True
+        return False
 
     def mods(self, f, _stack=None):
         """set of field names of f's own object that f may write, transitively through calls on this"""
